@@ -330,7 +330,7 @@ pub fn prop(tier: Tier, seed: u64) -> Prop {
 
     // ---- 1-D families (horizontal and vertical in the same case)
     let algs1: Vec<Alg> = FILT.iter().flat_map(|f| [Alg::Conv(*f), Alg::Interp(*f)]).collect();
-    let max_crops = 13u64;
+    let max_crops = 15u64;
     let dims = vec![n as u64, n as u64, max_crops, algs1.len() as u64];
     let (d1, a1, b1) = (dims.clone(), algs1.clone(), bes.clone());
     p.spaces.push(Space::new("1-D single pass: n_in x n_out x CROP1 x filter x {Conv,Interp} (x 13 types x back-ends x 2 orientations inside)", product(&dims), move |idx, ctx| {
@@ -366,7 +366,7 @@ pub fn prop(tier: Tier, seed: u64) -> Prop {
 
     // ---- 2-D family incl. SuperSampling
     let algs2 = all_algs(&[1, 2, 3]);
-    let dims3 = vec![m as u64, m as u64, m as u64, m as u64, 5, algs2.len() as u64];
+    let dims3 = vec![m as u64, m as u64, m as u64, m as u64, 6, algs2.len() as u64];
     let (d3, a2, b3) = (dims3.clone(), algs2.clone(), bes.clone());
     p.spaces.push(Space::new("2-D: (w_in,h_in,w_out,h_out) x crop pairs x all algorithms incl. SuperSampling m=1,2,3", product(&dims3), move |idx, ctx| {
         let mut d = [0usize; 6];
